@@ -3,6 +3,7 @@ package main
 import (
 	"bytes"
 	"fmt"
+	"reflect"
 
 	"go.uber.org/dig"
 )
@@ -111,6 +112,17 @@ func runCaseFull(c *Case) (tr Trace) {
 	}
 	apis := []api{{r.cont.Provide, r.cont.Decorate, r.cont.Invoke, r.cont.Scope, r.cont.String}}
 
+	r.nestedProvide = func(scope, fn int) {
+		f := r.fns[fn]
+		if f == nil || scope < 0 || scope >= len(apis) {
+			return
+		}
+		po, err := provideOptions(f)
+		if err != nil {
+			return
+		}
+		_ = apis[scope].provide(r.makeFunc(f, "ctor").Interface(), po...)
+	}
 	r.nested = func(scope, fn int) {
 		f := r.fns[fn]
 		if f == nil || scope < 0 || scope >= len(apis) {
@@ -150,6 +162,9 @@ func runCaseFull(c *Case) (tr Trace) {
 			}
 			if f.Callback {
 				po = append(po, dig.WithProviderCallback(r.cb(f)))
+			}
+			if f.LocPool != nil && f.Pool == nil {
+				po = append(po, dig.LocationForPC(reflect.ValueOf(poolFuncs[*f.LocPool]).Pointer()))
 			}
 			var info dig.ProvideInfo
 			if f.Info {
